@@ -73,6 +73,9 @@ func (d *Describer) val(v ssa.Value, depth int) string {
 			return d.bufDesc(v, depth)
 		}
 	}
+	if s, ok := d.induction(v, depth); ok {
+		return s
+	}
 	switch x := v.(type) {
 	case *ssa.Parameter:
 		for i, p := range x.Parent().Params {
@@ -95,9 +98,26 @@ func (d *Describer) val(v ssa.Value, depth int) string {
 	case *ssa.Builtin:
 		return x.Name()
 	case *ssa.Alloc:
+		if src := copiedFrom(x); src != nil && !d.stack[x] {
+			// a local holding a copy of one value (`for _, n := range nodes`, `tmp := *p`): named by what
+			// was copied, so that the element of a ranged-over list keeps the identity of the list
+			d.stack[x] = true
+			s := d.val(src, depth)
+			delete(d.stack, x)
+			return s + d.objOps(x, depth)
+		}
 		return "alloc(" + typeStr(x.Type().Underlying().(*types.Pointer).Elem()) + ")" + d.objOps(x, depth)
 	case *ssa.FieldAddr:
 		st := x.X.Type().Underlying().(*types.Pointer).Elem().Underlying().(*types.Struct)
+		if al, ok := x.X.(*ssa.Alloc); ok {
+			// a field of a struct built in place, set exactly once: the value it was set to
+			if v := fieldSetOnce(al, x.Field); v != nil && !d.stack[x] {
+				d.stack[x] = true
+				s := d.val(v, depth)
+				delete(d.stack, x)
+				return s
+			}
+		}
 		return d.val(x.X, depth) + "." + st.Field(x.Field).Name()
 	case *ssa.Field:
 		st := x.X.Type().Underlying().(*types.Struct)
@@ -148,6 +168,24 @@ func (d *Describer) val(v ssa.Value, depth int) string {
 	case *ssa.Extract:
 		if ta, ok := x.Tuple.(*ssa.TypeAssert); ok && x.Index == 0 {
 			return d.val(ta, depth)
+		}
+		if sel, ok := x.Tuple.(*ssa.Select); ok {
+			switch {
+			case x.Index == 0:
+				return "selcase" // which case fired: depends on the textual order of the cases
+			case x.Index == 1:
+				return "selok"
+			default:
+				k := 0
+				for _, st := range sel.States {
+					if st.Dir == types.RecvOnly {
+						if k == x.Index-2 {
+							return "<-" + d.val(st.Chan, depth+1)
+						}
+						k++
+					}
+				}
+			}
 		}
 		if call, ok := x.Tuple.(*ssa.Call); ok {
 			if s, ok := d.inlineHelper(&call.Call, x.Index, depth); ok {
@@ -222,6 +260,202 @@ func (d *Describer) val(v ssa.Value, depth int) string {
 		return "phi{" + strings.Join(parts, "|") + "}"
 	}
 	return fmt.Sprintf("?%T", v)
+}
+
+// induction: a loop counter, possibly offset by a constant, is described by
+// where it starts and how it steps ("ind(0,+1)"), whichever loop form produced
+// it: `for i := range xs` (go/ssa counts from -1 and uses i+1) and
+// `for i := 0; i < n; i++` give the same descriptor.
+func (d *Describer) induction(v ssa.Value, depth int) (string, bool) {
+	intConst := func(v ssa.Value) (int64, bool) {
+		c, ok := v.(*ssa.Const)
+		if !ok || c.Value == nil || c.Value.Kind() != constant.Int {
+			return 0, false
+		}
+		n, exact := constant.Int64Val(c.Value)
+		return n, exact
+	}
+	off := int64(0)
+	for k := 0; k < 3; k++ {
+		b, ok := v.(*ssa.BinOp)
+		if !ok || (b.Op != token.ADD && b.Op != token.SUB) {
+			break
+		}
+		if n, ok := intConst(b.Y); ok {
+			if b.Op == token.ADD {
+				off += n
+			} else {
+				off -= n
+			}
+			v = b.X
+			continue
+		}
+		if n, ok := intConst(b.X); ok && b.Op == token.ADD {
+			off += n
+			v = b.Y
+			continue
+		}
+		break
+	}
+	phi, ok := v.(*ssa.Phi)
+	if !ok {
+		return "", false
+	}
+	// distinct incoming values (a `continue` adds a second back edge carrying the same step)
+	var edges []ssa.Value
+	for _, e := range phi.Edges {
+		dup := false
+		for _, o := range edges {
+			if o == e {
+				dup = true
+			}
+		}
+		if !dup {
+			edges = append(edges, e)
+		}
+	}
+	if len(edges) != 2 {
+		return "", false
+	}
+	for i, e := range edges {
+		b, ok := e.(*ssa.BinOp)
+		if !ok || (b.Op != token.ADD && b.Op != token.SUB) || b.X != ssa.Value(phi) {
+			continue
+		}
+		step, ok := intConst(b.Y)
+		if !ok {
+			continue
+		}
+		if b.Op == token.SUB {
+			step = -step
+		}
+		start := edges[1-i]
+		if n, ok := intConst(start); ok {
+			return fmt.Sprintf("ind(%d,%+d)", n+off, step), true
+		}
+		if d.stack[phi] {
+			return "", false
+		}
+		d.stack[phi] = true
+		ss := d.val(start, depth+1)
+		delete(d.stack, phi)
+		if off != 0 {
+			ss = fmt.Sprintf("(%s%+d)", ss, off)
+		}
+		return fmt.Sprintf("ind(%s,%+d)", ss, step), true
+	}
+	return "", false
+}
+
+// fieldSetOnce: the one value stored into field k of a locally built struct
+// (nil when it is stored never, several times, or the struct is also written as a whole).
+func fieldSetOnce(a *ssa.Alloc, k int) ssa.Value {
+	refs := a.Referrers()
+	if refs == nil {
+		return nil
+	}
+	var v ssa.Value
+	for _, r := range *refs {
+		switch x := r.(type) {
+		case *ssa.Store:
+			if x.Addr == ssa.Value(a) {
+				return nil
+			}
+		case *ssa.FieldAddr:
+			if x.Field != k || x.Referrers() == nil {
+				continue
+			}
+			for _, u := range *x.Referrers() {
+				if st, ok := u.(*ssa.Store); ok && st.Addr == ssa.Value(x) {
+					if v != nil {
+						return nil
+					}
+					v = st.Val
+				}
+			}
+		}
+	}
+	return v
+}
+
+// copiedFrom: the alloc is written by exactly one whole-value store and never
+// through its fields or elements: it is a copy of that value.
+func copiedFrom(a *ssa.Alloc) ssa.Value {
+	refs := a.Referrers()
+	if refs == nil {
+		return nil
+	}
+	elemWritten := func(addr ssa.Value) bool {
+		if fr := addr.Referrers(); fr != nil {
+			for _, u := range *fr {
+				if st, ok := u.(*ssa.Store); ok && st.Addr == addr {
+					return true
+				}
+			}
+		}
+		return false
+	}
+	var src ssa.Value
+	for _, r := range *refs {
+		switch x := r.(type) {
+		case *ssa.Store:
+			if x.Addr != a {
+				continue // the address itself stored somewhere: still the same contents
+			}
+			if src != nil {
+				return nil
+			}
+			src = x.Val
+		case *ssa.FieldAddr:
+			if elemWritten(x) {
+				return nil
+			}
+		case *ssa.IndexAddr:
+			if elemWritten(x) {
+				return nil
+			}
+		case *ssa.MakeClosure:
+			// a captured variable: the closure must not assign it
+			fn, _ := x.Fn.(*ssa.Function)
+			for i, b := range x.Bindings {
+				if b == ssa.Value(a) && (fn == nil || i >= len(fn.FreeVars) || freeVarAssigned(fn, fn.FreeVars[i], 0)) {
+					return nil
+				}
+			}
+		}
+	}
+	if src == nil {
+		return nil
+	}
+	if _, isConst := src.(*ssa.Const); isConst {
+		return nil
+	}
+	return src
+}
+
+// freeVarAssigned: the closure (or a closure nested in it) stores to the captured variable.
+func freeVarAssigned(fn *ssa.Function, fv *ssa.FreeVar, depth int) bool {
+	if depth > 3 {
+		return true
+	}
+	if refs := fv.Referrers(); refs != nil {
+		for _, r := range *refs {
+			switch x := r.(type) {
+			case *ssa.Store:
+				if x.Addr == ssa.Value(fv) {
+					return true
+				}
+			case *ssa.MakeClosure:
+				g, _ := x.Fn.(*ssa.Function)
+				for i, b := range x.Bindings {
+					if b == ssa.Value(fv) && (g == nil || i >= len(g.FreeVars) || freeVarAssigned(g, g.FreeVars[i], depth+1)) {
+						return true
+					}
+				}
+			}
+		}
+	}
+	return false
 }
 
 // overwriting mutators of kyber.Point / kyber.Scalar: the result is a function
@@ -453,6 +687,22 @@ func (d *Describer) objOps(v ssa.Value, depth int) string {
 			as = append(as, d.val(a, maxDepth-1))
 		}
 		set[mname+"(@, "+strings.Join(as, ", ")+")"] = true
+	}
+	// a struct built in place: what its fields are set to is part of what the object is
+	if al, ok := v.(*ssa.Alloc); ok {
+		if st, ok := al.Type().Underlying().(*types.Pointer).Elem().Underlying().(*types.Struct); ok {
+			for _, r := range *refs {
+				fa, ok := r.(*ssa.FieldAddr)
+				if !ok || fa.X != v || fa.Referrers() == nil {
+					continue
+				}
+				for _, u := range *fa.Referrers() {
+					if sto, ok := u.(*ssa.Store); ok && sto.Addr == ssa.Value(fa) {
+						set["."+st.Field(fa.Field).Name()+"="+d.val(sto.Val, maxDepth-1)] = true
+					}
+				}
+			}
+		}
 	}
 	if len(set) == 0 {
 		return ""
